@@ -65,7 +65,7 @@ def run(ctx, replay=None):
                          comps=steps.COMPOSITIONS[rng.choice(['only_obstacles', 'only_teleport'])],
                          seeds=[rng.randrange(2 ** 31) for _ in range(4 if ctx.quick else 10)]))
     sc.run_step_part(ctx, 'random_layouts', jobs, dict(comps=steps.COMPOSITIONS['only_obstacles'], via='direct', actions=['TURN_LEFT']), PREFIX)
-    sc.live_chain_part(ctx, PREFIX, 200 if ctx.quick else 5000, seed_offset=4)
+    sc.live_chain_part(ctx, PREFIX, 200 if ctx.quick else 1500, seed_offset=4)
     ctx.cov['exhaustive'] = True
 
 
